@@ -48,10 +48,11 @@ CLAIMED = {
          "pass is the identity (second_pass_identity) - so 'no drift' follows once each hop truncates to its grid, which C01/C02 establish per format. "
          "For SRT the hop itself is proved end to end on the writer and reader models (srt_hop: reading what the writer wrote returns one caption per written cue, "
          "in order, with the millisecond-truncated instants and the writer's text lines, for EVERY list of cues with visible text; srt_hop_instant ties it to coarsen), "
-         "and for WebVTT (vtt_hop: captions made of text lines of any characters come back with the same lines and the millisecond-truncated instants). "
+         "for WebVTT (vtt_hop: captions made of text lines of any characters come back with the same lines and the millisecond-truncated instants) "
+         "and for MicroDVD (mdvd_hop: same lines, instants truncated to whole frames of 1/25 s). "
          "Execution with pycaption's own readers: all 25 ordered pairs (125 triples in thorough) plus sampled longer chains, two passes, per-language "
          "(start, end, normalised text) compared after every hop with the sequentially coarsened original (SAMI: last cue = start + 4 s)."),
-   ref="§3 C08", technique="Lean 4 proof (omega over nested grids, induction over the format chain) + end-to-end write/read theorems for SRT and WebVTT (reader refinements, token-wise entity decoding) + exhaustive pair/triple execution with the real readers and writers",
+   ref="§3 C08", technique="Lean 4 proof (omega over nested grids, induction over the format chain) + end-to-end write/read theorems for SRT, WebVTT and MicroDVD (reader refinements, token-wise entity decoding) + exhaustive pair/triple execution with the real readers and writers",
    note=NOTE_COMMON + "for the other formats hop_obs (write then parse then read = coarsen) is composed from the C01-C04 models only by execution, not by a single theorem; languages are compared by code (order is C14's subject)."),
  "C14": dict(
    text=("Lean theorems: DFXP div language = own xml:lang, else the document's, else the configured default (dfxp_lang_fallback); the languages of a document are "
